@@ -1,39 +1,6 @@
-(* C19: the full statements that are false of the faithful model, and their witnesses. *)
+(* C19: example paths for the refutation witness that is left (Relpath and a ':' byte). *)
 From PV Require Import Lib.Bytes Model.Paths Spec.PathDenote.
 Open Scope N_scope.
 
 Definition p_root : str := [47].            (* "/"   *)
-Definition p_rootdot : str := [47; 46].     (* "/."  *)
 Definition p_a : str := [97].               (* "a"   *)
-Definition p_dotslash : str := [46; 47].    (* "./"  *)
-Definition p_ab : str := [97; 47; 98].      (* "a/b" *)
-Definition p_bslash : str := [98; 47].      (* "b/"  *)
-Definition p_b : str := [98].               (* "b"   *)
-Definition p_abslash : str := [97; 47; 98; 47]. (* "a/b/" *)
-
-(* CleanDot / CleanPath for ALL paths *)
-Definition clean_dot_denotes_full : Prop := forall cwd p, denote cwd (clean_dot p) = denote cwd p.
-Definition clean_path_denotes_full : Prop := forall cwd p, denote cwd (clean_path p) = denote cwd p.
-
-Lemma clean_dot_denotes_refuted : ~ clean_dot_denotes_full.
-Proof. intro H. specialize (H p_a p_rootdot). vm_compute in H. discriminate. Qed.
-
-Lemma clean_path_denotes_refuted : ~ clean_path_denotes_full.
-Proof. intro H. specialize (H p_a p_root). vm_compute in H. discriminate. Qed.
-
-(* the predicates for ALL non-empty paths *)
-Definition prefix_is_parts_prefix_full : Prop :=
-  forall p q, p <> [] -> q <> [] -> has_prefix_path p q = path_prefixb q p.
-Definition contains_is_parts_infix_full : Prop :=
-  forall p q, p <> [] -> q <> [] -> contains_path p q = path_infixb q p.
-Definition suffix_is_parts_suffix_full : Prop :=
-  forall p q, p <> [] -> q <> [] -> has_suffix_path p q = path_suffixb q p.
-
-Lemma prefix_is_parts_prefix_refuted : ~ prefix_is_parts_prefix_full.
-Proof. intro H. specialize (H p_a p_dotslash). vm_compute in H. discriminate (H ltac:(discriminate) ltac:(discriminate)). Qed.
-
-Lemma contains_is_parts_infix_refuted : ~ contains_is_parts_infix_full.
-Proof. intro H. specialize (H p_ab p_bslash). vm_compute in H. discriminate (H ltac:(discriminate) ltac:(discriminate)). Qed.
-
-Lemma suffix_is_parts_suffix_refuted : ~ suffix_is_parts_suffix_full.
-Proof. intro H. specialize (H p_abslash p_b). vm_compute in H. discriminate (H ltac:(discriminate) ltac:(discriminate)). Qed.
